@@ -163,6 +163,20 @@ func renderCondV(cond ssa.Value, val bool) string {
 		if (op == token.EQL || op == token.NEQ) && l > r {
 			l, r = r, l
 		}
+		// emptiness tests have one canonical form: len(x) > 0, 0 < len(x), len(x) != 0, len(x) >= 1
+		// are "len(x) != 0"; len(x) == 0, len(x) < 1, len(x) <= 0 are "len(x) == 0"
+		// s == "" is the same test as len(s) == 0
+		if l == "\"\":string" && (op == token.EQL || op == token.NEQ) {
+			l, r = "builtin.len("+r+")", "0:int"
+		} else if r == "\"\":string" && (op == token.EQL || op == token.NEQ) {
+			l, r = "builtin.len("+l+")", "0:int"
+		}
+		if n, e, ok := lenEmptiness(l, r, op); ok {
+			if e {
+				return n + " == 0"
+			}
+			return n + " != 0"
+		}
 		return l + " " + op.String() + " " + r
 	}
 	s = renderValue(inner, 0)
@@ -170,6 +184,46 @@ func renderCondV(cond ssa.Value, val bool) string {
 		return "!" + s
 	}
 	return s
+}
+
+// lenEmptiness recognises comparisons of a rendered len(...) with the constants 0 and 1 (after the
+// normalisation above only ==, !=, <, <= remain) and says whether the comparison means "empty".
+func lenEmptiness(l, r string, op token.Token) (name string, empty, ok bool) {
+	isLen := func(s string) bool { return strings.HasPrefix(s, "builtin.len(") && strings.HasSuffix(s, ")") }
+	konst := func(s string) (int, bool) {
+		switch s {
+		case "0:int":
+			return 0, true
+		case "1:int":
+			return 1, true
+		}
+		return 0, false
+	}
+	switch {
+	case isLen(l):
+		k, isK := konst(r)
+		if !isK {
+			return "", false, false
+		}
+		switch {
+		case op == token.EQL && k == 0, op == token.LSS && k == 1, op == token.LEQ && k == 0:
+			return l, true, true
+		case op == token.NEQ && k == 0:
+			return l, false, true
+		}
+	case isLen(r):
+		k, isK := konst(l)
+		if !isK {
+			return "", false, false
+		}
+		switch {
+		case op == token.EQL && k == 0:
+			return r, true, true
+		case op == token.NEQ && k == 0, op == token.LSS && k == 0, op == token.LEQ && k == 1:
+			return r, false, true
+		}
+	}
+	return "", false, false
 }
 
 // loopSkips: for every loop of fn, the conditions under which an iteration ends (back to the head
@@ -216,11 +270,46 @@ func loopSkips(fn *ssa.Function, progress func(ssa.Instruction) bool) []string {
 			if !c1 {
 				k = 1
 			}
-			out = append(out, renderCondV(ifi.Cond, k == 0))
+			_ = ifi
+			out = append(out, renderSkipDecision(bb, k))
 		}
 	}
 	sort.Strings(out)
 	return out
+}
+
+// renderSkipDecision renders the decision taken on successor k of bb together with the conditions
+// of the short-circuit / nested-if chain that leads to bb: a predecessor whose other successor is
+// the same "not skipped" target as bb's other successor contributes a conjunct (so `a && b`,
+// `b && a` and `if a { if b {…} }` are one decision). Conjuncts are sorted.
+func renderSkipDecision(bb *ssa.BasicBlock, k int) string {
+	ifi := blockIf(bb)
+	parts := []string{renderCondV(ifi.Cond, k == 0)}
+	other := bb.Succs[1-k]
+	cur := bb
+	for d := 0; d < 8; d++ {
+		if len(cur.Preds) != 1 {
+			break
+		}
+		p := cur.Preds[0]
+		pif := blockIf(p)
+		if pif == nil {
+			break
+		}
+		idx := -1
+		for i, sc := range p.Succs {
+			if sc == cur {
+				idx = i
+			}
+		}
+		if idx < 0 || p.Succs[1-idx] != other || p == cur {
+			break
+		}
+		parts = append(parts, renderCondV(pif.Cond, idx == 0))
+		cur = p
+	}
+	sort.Strings(parts)
+	return strings.Join(parts, " && ")
 }
 
 func isPackageAppend(in ssa.Instruction) bool {
